@@ -1,5 +1,10 @@
 import PebblesVerif.Props.C02
 open PebblesVerif
+#print axioms C02_vars_facts
 #print axioms C02_header_declares
 #print axioms C02_variables_forwarded
-#print axioms C02_directive_variable_gap
+#print axioms C02_value_forwarded
+#print axioms C02_declared_default_forwarded
+#print axioms C02_sent_value_kept
+#print axioms C02_before_repair_directive_variable
+#print axioms C02_before_repair_default_dropped
